@@ -22,7 +22,8 @@ def main():
     prop, patch = sys.argv[1], os.path.abspath(sys.argv[2])
     rest = sys.argv[3:]
     os.makedirs(os.path.join(VERIF, ".cache"), exist_ok=True)
-    with open(os.path.join(VERIF, ".cache", "repo.lock"), "w") as lk:
+    with open(os.path.join(VERIF, ".cache", "gate.lock"), "w") as gate, open(os.path.join(VERIF, ".cache", "repo.lock"), "w") as lk:
+        fcntl.flock(gate, fcntl.LOCK_EX)   # blocks new checks while we wait for the running ones
         fcntl.flock(lk, fcntl.LOCK_EX)
         st = subprocess.run(["git", "-C", "/repo", "status", "--porcelain", "--untracked-files=no"],
                             capture_output=True, text=True).stdout.strip()
